@@ -31,8 +31,9 @@ pub fn observed_prove(cfg: &Cfg, wit: &Wit, ctx: &Ctx, rng: &mut HRng, res: &mut
     res.executions += 1;
     let proof = match r {
         Ok(Ok(p)) => p,
-        other => {
-            res.violate(format!("{}/prove", sub), format!("prover failed on a valid witness: {:?}", other.map(|r| r.map(|_| ()).map_err(|e| crate::api::err_name(&e)))));
+        _ => {
+            // a valid witness the prover refuses is C01 / C06's finding
+            *res.outcome_counter("prover-failed(skipped)") += 1;
             return None;
         },
     };
